@@ -62,7 +62,7 @@ import numpy as np
 from .. import common
 from ..runner import Corr, Failure
 
-LEAN_MODULES = ['SvgVerif.Props.C19', 'SvgVerif.Props.C19Identities', 'SvgVerif.Props.C19Limit']
+LEAN_MODULES = ['SvgVerif.Props.C19', 'SvgVerif.Props.C19Identities', 'SvgVerif.Props.C19Limit', 'SvgVerif.Props.C19General']
 GEN = {'C19': gen_defs}
 ASSUMPTIONS = [
     'np.roots is an oracle: the theorems start from the list it returns',
@@ -127,6 +127,53 @@ def _rootlist_ok(rs):
             if a is not b and not _margin_ok(a, b):
                 return False
     return True
+
+
+def _correspond_general(ctx):
+    """n_choose_k, bernstein, bezier_point, bezier2polynomial (both orderings), split_bezier, halve_bezier for
+    control-point tuples of 0..12 points, real functions on Fractions vs Model.BezierN at Rat"""
+    bz = ctx.spt.bezier
+    c = Corr('general-degree bezier helpers')
+    r = ctx.rng('corr-bezn')
+    lines, impl = [], []
+
+    def frs(xs):
+        return ' '.join(_fr(Fr(x)) for x in xs)
+
+    def run(f):
+        try:
+            return f()
+        except Exception as e:
+            return type(e).__name__
+    for n in range(0, 13):
+        for k in range(0, n + 1):
+            lines.append('bezn nck %d %d' % (n, k)); impl.append(str(bz.n_choose_k(n, k)))
+    c.count('n_choose_k', len(lines))
+    for _ in range(ctx.n(250, 2500)):
+        npts = r.choice([0, 1, 2, 3, 4, 5, 5, 6, 6, 7, 8, 9, 10, 12])
+        ps = [Fr(r.randint(-9, 9), r.choice([1, 1, 2, 3])) for _ in range(npts)]
+        t = r.choice([Fr(0), Fr(1), Fr(1, 2), Fr(r.randint(-3, 7), r.choice([2, 3, 4, 5]))])
+        op = r.choice(['point', 'point', 'b2p', 'split', 'split', 'halve', 'bern'])
+        c.count('%s/%s' % (op, 'deg<=3' if npts <= 4 else 'deg>=4'))
+        if op == 'point':
+            lines.append('bezn point %s %s' % (_fr(t), frs(ps)))
+            impl.append(run(lambda: _fr(Fr(bz.bezier_point(ps, t)))))
+        elif op == 'bern':
+            lines.append('bezn bern %d %s' % (npts, _fr(t)))
+            impl.append(run(lambda: frs(bz.bernstein(npts, t))))
+        elif op == 'b2p':
+            o = r.random() < 0.5
+            lines.append('bezn b2p %d %s' % (int(o), frs(ps)))
+            impl.append(run(lambda: frs(bz.bezier2polynomial(list(ps), numpy_ordering=o))))
+        elif op == 'split':
+            lines.append('bezn split %s %s' % (_fr(t), frs(ps)))
+            impl.append(run(lambda: '%s | %s' % tuple(frs(x) for x in bz.split_bezier(list(ps), t))))
+        else:   # halve_bezier multiplies by the float 0.5: integer control points keep it exact
+            ps = [Fr(r.randint(-64, 64)) for _ in range(npts)]
+            lines.append('bezn halve %s' % frs(ps))
+            impl.append(run(lambda: '%s | %s' % tuple(frs(x) for x in bz.halve_bezier(list(ps)))))
+    c.compare(lines, [m.strip() for m in common.driver(lines)], [m.strip() for m in impl])
+    return c
 
 
 def correspond(ctx):
@@ -208,6 +255,8 @@ def correspond(ctx):
     model = common.driver(lines)
     c2.compare(lines, model, impl)
     out.append(c2)
+    # ---- stream 3: general-degree helpers on exact rationals ---------------------------
+    out.append(_correspond_general(ctx))
     return out
 
 
